@@ -13,12 +13,12 @@ var VerifSignCount uint64
 
 func verifSigned(site int) { atomic.AddUint64(&VerifSignCount, 1) }
 
-// verifExpireHook, when set, is called by expire after its timer fired and before it takes the mutex
+// verifExpireHook, when set, is called by expire after its timer fired, before it takes the mutex (site 1) and after it released it (site 2)
 // (verification harness only: a blocking hook lets a test decide when the expiry takes effect).
-var verifExpireHook func(addr common.Address, u *unlocked)
+var verifExpireHook func(addr common.Address, u *unlocked, site int)
 
-func verifExpire(addr common.Address, u *unlocked) {
+func verifExpire(addr common.Address, u *unlocked, site int) {
 	if h := verifExpireHook; h != nil {
-		h(addr, u)
+		h(addr, u, site)
 	}
 }
